@@ -307,12 +307,13 @@ def audit_axioms(pid, thms):
     axioms = {}
     bad = []
     txt = p.stdout
-    for m in re.finditer(r"'([^']+)' depends on axioms: \[([^\]]*)\]", txt, flags=re.S):
+    # names may themselves end in primes: 'foo'' depends on ...
+    for m in re.finditer(r"^'([^\n]+?)' depends on axioms: \[([^\]]*)\]", txt, flags=re.S | re.M):
         ax = {a.strip() for a in m.group(2).replace("\n", " ").split(",") if a.strip()}
         axioms[m.group(1)] = sorted(ax)
         if not ax <= ALLOWED_AXIOMS:
             bad.append(f"{m.group(1)} uses {sorted(ax - ALLOWED_AXIOMS)}")
-    for m in re.finditer(r"'([^']+)' does not depend on any axioms", txt):
+    for m in re.finditer(r"^'([^\n]+?)' does not depend on any axioms", txt, flags=re.M):
         axioms[m.group(1)] = []
     for _, t in thms:
         if t not in axioms:
